@@ -79,7 +79,7 @@ R["C02"] = {"harnesses": [H("H_Merge", MERGE_Q, None, ["merge/end", "merge/objec
             "assumptions": ["member names distinct within an object"],
             "outside_bound": ["documents and patches outside the listed families (more members, deeper nesting)"]}
 R["C03"] = {"harnesses": [
-    H("H_Create", [{"m": 2, "vals": 63}, {"m": 1, "vals": 261904}, {"m": 2, "vals": 65539}], [{"m": 2, "vals": 255}, {"m": 1, "vals": 262143}, {"m": 2, "vals": 65296}, {"m": 2, "vals": 196611}],
+    H("H_Create", [{"m": 2, "vals": 47}, {"m": 1, "vals": 262143}, {"m": 2, "vals": 65537}], [{"m": 2, "vals": 255}, {"m": 1, "vals": 262143}, {"m": 2, "vals": 65296}, {"m": 2, "vals": 196611}],
       ["create/end", "create/no-null-target"], CREATE_BOUND),
     H("H_CreateArr", [{"vals": 31}], None, ["createarr/end", "createarr/rejected"], "arrays of 0..2 objects of <= 1 member each (first five value shapes)"),
     H("H_CreateReject", [{}], None, ["createreject/accepted", "createreject/rejected"], "all 49 pairs of 7 root kinds")],
